@@ -22,7 +22,8 @@ CHECKS = {
         "points; the outcome class "
         "(estimand / refusal / anything else) is compared with an independent identifiability oracle (Tian-Pearl closure, "
         "cross-checked against a brute-force hedge search), and the caller's graph and query objects are snapshotted before and "
-        "after. Bounded-exhaustive over (graph, X, Y).",
+        "after. Bounded-exhaustive over (graph, X, Y); five-node graphs up to 8 (thorough 9) edges on the slice of identifiable queries "
+        "whose first step is line 4 into several line-7 districts.",
         note="Trusted: identifiability oracles in mc/graphs.py (two independent ones, cross-checked exhaustively for n<=4).",
         design="4/C02",
     ),
@@ -39,7 +40,8 @@ CHECKS = {
         "argument sets that are re-used across calls and snapshotted; "
         "the estimand is evaluated on a multi-domain witness family (source models share every mechanism with the target except at the "
         "nodes marked by the selection diagram) and compared with the target P*(y|do x) for every assignment; with no domains the "
-        "None-ness must coincide with ID-identifiability.",
+        "None-ness must coincide with ID-identifiability. A denser four-node slice is checked for the kind of outcome and side effects only "
+        "and is repeated in fresh interpreters under several PYTHONHASHSEED values.",
         note="Trusted: witness family construction (mechanisms keyed by named arguments), evaluator; transport marks are y0's own "
         "united with the published construction.",
         design="4/C05",
@@ -159,7 +161,8 @@ CHECKS = {
     "C17": dict(
         text="Every (graph, linear extension, district T, bidirected-connected C inside T) within the bound is passed to "
         "identify_district_variables with Q[T] from compute_c_factor and as the Lemma-1 product; results are evaluated exactly on "
-        "witness SCMs and compared with P(c|do(v minus c)); c-factor routines are also exercised from every ancestral set.",
+        "witness SCMs and compared with P(c|do(v minus c)); c-factor routines are also exercised from every ancestral set, whose "
+        "distribution is supplied as P(A), as Sum P(V) and as a chain-rule product in every order of A.",
         note="Trusted: mc/scm.py truncated factorisation and the evaluator; failure is additionally compared with the IDENTIFY fix-point.",
         design="4/C17",
     ),
